@@ -27,15 +27,23 @@ func (d *Driver) read() {
 	patterns := getNetconfPatterns()
 
 	for {
+		verifYield("N_top")
+
 		select {
 		case <-d.done:
 			return
 		default:
 		}
 
+		verifYield("N_read")
+
 		rb, err := d.Channel.Read()
 		if err != nil {
+			verifYield("N_send")
+
 			d.errs <- err
+
+			verifYield("N_sent")
 		}
 
 		b = append(b, rb...)
